@@ -236,8 +236,8 @@ def jobs_for(ctx, exe):
             plan["exhaustive"].append("%s event 2 nodes (720)" % v)
         for p in ("pubsub", "reqres", "blackboard"):
             for v in VARIANTS:
-                rnd(v, p, 2, 8, 250)
-                plan["sampled"].append("%s %s 2 nodes: 2000 of 40320" % (v, p))
+                rnd(v, p, 2, 8, 120)
+                plan["sampled"].append("%s %s 2 nodes: 960 of 40320" % (v, p))
     return jobs, plan
 
 
